@@ -2,6 +2,7 @@ CONSTANTS Fams = {"un"}
           MaxUn = 3
           MaxFil = 0
           MaxBin = 0
+          TileP = 2
           TileQ = 1
           TileM = 1
           Mutant = "const_drops_validity"
